@@ -279,13 +279,25 @@ def DecHeader.qidx (d : DecHeader) : QuantIdx :=
   { useSegment := d.seg.useSegment, absolute := d.seg.absoluteDelta, segQ := d.seg.quantizer, base := d.baseQ0
     dqY1DC := d.dqY1DC, dqY2DC := d.dqY2DC, dqY2AC := d.dqY2AC, dqUVDC := d.dqUVDC, dqUVAC := d.dqUVAC }
 
+/-- Go's numbering of the sub-block modes (`B_DC_PRED 0, B_TM_PRED 1, B_VE_PRED 2, B_HE_PRED 3,
+    B_RD_PRED 4, B_VR_PRED 5, B_LD_PRED 6, B_VL_PRED 7, B_HD_PRED 8, B_HU_PRED 9`) to RFC 6386's
+    (`… B_LD_PRED 4, B_RD_PRED 5, B_VR_PRED 6 …`): the order of `Tables.kfBModeProbs` -/
+def bmodeRFC : Nat → Nat
+  | 4 => 5 | 5 => 6 | 6 => 4 | n => n
+
+/-- **`KBModesProba[top][left][i]`** (constants.go), Go mode numbers: the RFC's `kf_bmode_probs` under
+    the renumbering of both contexts (an index outside the 10·10·9 table — never formed by the Go
+    code, which would panic — answers 128 like `Webp.Spec.VP8`'s lookup) -/
+def kBModesProba (top left i : Nat) : Nat :=
+  Tables.kfBModeProbs.getD ((bmodeRFC top * 10 + bmodeRFC left) * 9 + i) 128
+
 /-- the byte a slot resolves to, from transported tables: `BandsPtr[t][n] = &Bands[t][KBands[n]]`,
     `KBModesProba`, the constants; the segment-map and skip probabilities only while in use -/
 def probOfTables (coef : List UInt8) (updateMap : Bool) (segProbs : Fin 3 → UInt8) (useSkip : Bool) (skipP : UInt8) :
     Slot → UInt8
   | .coef t n ctx i => coef.getD (((t * 8 + Tables.coeffBands.getD n 0) * 3 + ctx) * 11 + i) 0
   | .fixed p => UInt8.ofNat p
-  | .bmode top left i => UInt8.ofNat (Tables.kfBModeProbs.getD ((top * 10 + left) * 9 + i) 0)
+  | .bmode top left i => UInt8.ofNat (kBModesProba top left i)
   | .seg i => if updateMap then (if h : i < 3 then segProbs ⟨i, h⟩ else 255) else 255
   | .skip => if useSkip then skipP else 0
 
